@@ -54,6 +54,15 @@ class Place:
     def __init__(self, j):
         self.local = j["l"]
         self.proj = [tuple(p) for p in j["p"]]
+        # coroutine state: `((*_s) as <n>).<k>` is the saved user variable k — model it as a pseudo-local
+        pr = self.proj
+        i = 0
+        while i < len(pr) and pr[i][0] == "deref":
+            i += 1
+        if i + 1 < len(pr) and pr[i][0] == "downcast" and str(pr[i][1]).isdigit() and pr[i + 1][0] == "field" and str(pr[i + 1][1]).isdigit() \
+                and str(pr[i + 1][2]).startswith("closure:"):
+            self.local = 1000000 + int(pr[i + 1][1])
+            self.proj = pr[i + 2:]
 
     def fields(self):
         """[(name, owner, variant)] for each field projection."""
@@ -106,6 +115,8 @@ class Operand:
                 return (k, c[k])
         if "fn" in c:
             return ("fn", c["fn"].get("resolved") or c["fn"]["path"])
+        if "uneval" in c and "promoted" not in c:
+            return ("named", c["uneval"])
         return None
 
     def __repr__(self):
@@ -301,7 +312,7 @@ class Fn:
         return self.names.get(str(l))
 
     def local_ty(self, l):
-        return self.locals[l]
+        return self.locals[l] if 0 <= l < len(self.locals) else ""
 
     def __repr__(self):
         return "<Fn %s>" % self.id
